@@ -85,8 +85,7 @@ def r9(run, tree):
 def r11(run, tree):
     run.rule("C01.R11", "vector assembly and derived variables", "D7 folding over name sets", "", floor=8)
     iof.check_vector_assembly(run, tree)
-    from .c13 import check_derived_variables
-    check_derived_variables(run, tree)
+    iof.check_derived_variables(run, tree)
 
 
 def r_shared_c01_r12(run, tree):
